@@ -967,3 +967,86 @@ def load_enums():
                 vs.append(m2.group(1))
         enums['Expr'] = vs
     return enums
+
+
+# ------------------------------------------------------------------------------------------------ evaluator boundary
+def eval_obj(node_variant, array):
+    """An Evaluator positioned on an aggregate node `(<agg> <arg>)`; evaluating the argument yields `array`."""
+    node = Enum('Expr', node_variant, [Opaque('id:arg')] if node_variant != 'RowCount' else [])
+    return Struct('EvalObj', [node, array])
+
+
+@crate_contract(r'(^|::)Evaluator::<.*>::node$', 'Evaluator::node returns the plan node under the cursor (the aggregate call being evaluated)')
+def ev_node(vm, m, callee, args):
+    r = args[0]
+    while isinstance(vm._get(r.cell, r.path), Ref):
+        r = vm._get(r.cell, r.path)
+    return Ref(r.cell, r.path + (('field', 0),))
+
+
+@crate_contract(r'(^|::)Evaluator::<.*>::next$', "Evaluator::next moves the cursor to a child (here: the aggregate's argument)")
+def ev_next(vm, m, callee, args):
+    e = dv(vm, args[0])
+    return Struct('EvalObj', [Enum('Expr', 'ColumnIndex', [Opaque('arg')]), e.fields[1]])
+
+
+@crate_contract(r'(^|::)Evaluator::<.*>::eval$', "Evaluator::eval of the aggregate's argument yields the argument array of the chunk")
+def ev_eval(vm, m, callee, args):
+    import copy
+    e = dv(vm, args[0])
+    return Enum('Result', 'Ok', [copy.deepcopy(e.fields[1])])
+
+
+@crate_contract(r'(^|::)DataChunk::cardinality$', 'DataChunk::cardinality = number of rows of the chunk')
+def chunk_card(vm, m, callee, args):
+    c = dv(vm, args[0])
+    return mk_int(c.fields[0], 'usize')
+
+
+@native(r'^<std::collections::HashSet<.*> as (std::default::)?Default>::default$|^std::collections::HashSet::<.*>::(new|default)$', 'HashSet::default is the empty set')
+def hs_new(vm, m, callee, args):
+    return Struct('HashSet', [Seq([])])
+
+
+@native(r'^std::collections::HashSet::<.*>::insert$', 'HashSet::insert adds the value unless an equal one is present (set of symbolic values kept as a list of candidates)')
+def hs_insert(vm, m, callee, args):
+    h = dv(vm, args[0])
+    h.fields[0].items.append(args[1])
+    return BoolVal(True)
+
+
+@native(r'^std::collections::HashSet::<.*>::len$', 'HashSet::len = number of pairwise-distinct members')
+def hs_len(vm, m, callee, args):
+    h = dv(vm, args[0])
+    items = h.fields[0].items
+    acc = BitVecVal(0, 64)
+    for j, x in enumerate(items):
+        dup = Or([datavalue_eq(vm, items[i], x) for i in range(j)]) if j else BoolVal(False)
+        acc = acc + If(dup, BitVecVal(0, 64), BitVecVal(1, 64))
+    return BV(acc, False)
+
+
+def datavalue_eq(vm, a, b):
+    """Derived PartialEq of DataValue on (possibly symbolic-variant) values."""
+    la = a.alts if isinstance(a, SymEnum) else [(BoolVal(True), a)]
+    lb = b.alts if isinstance(b, SymEnum) else [(BoolVal(True), b)]
+    out = []
+    for ca, x in la:
+        for cb, y in lb:
+            if x.variant != y.variant:
+                continue
+            if not x.fields:
+                out.append(And(ca, cb))
+            else:
+                p, q = x.fields[0], y.fields[0]
+                out.append(And(ca, cb, (p.v == q.v) if isinstance(p, BV) else (bool_(p) == bool_(q))))
+    return Or(out) if out else BoolVal(False)
+
+
+@native(r'^<(i8|i16|i32|i64|u8|u16|u32|u64|usize|isize) as Ord>::(min|max)$|^std::cmp::(min|max)::<(i8|i16|i32|i64|u8|u16|u32|u64|usize|isize)>$', 'Ord::min / max on integers')
+def int_minmax(vm, m, callee, args):
+    a, b = dv(vm, args[0]), dv(vm, args[1])
+    lt = CMPF['lt'](a.v, b.v, a.signed)
+    if callee.endswith('min') or '::min::' in callee:
+        return BV(If(lt, a.v, b.v), a.signed)      # min(a, b): a if a <= b  (equal values are indistinguishable)
+    return BV(If(lt, b.v, a.v), a.signed)
